@@ -194,6 +194,21 @@ func c01Generic(c *Ctx, pkg string, seal bool) {
 							}
 						})
 					}
+					// via: the value a phi took on the path walked, and the value an inlined
+					// helper returned for a call result — so a returned constant or global
+					// reads the same through named results, single-exit code or a helper
+					via := map[ssa.Value]ssa.Value{}
+					through := func(v ssa.Value) ssa.Value {
+						for i := 0; i < 20 && v != nil; i++ {
+							n, ok := via[v]
+							if !ok {
+								break
+							}
+							v = n
+						}
+						return v
+					}
+					macDone := false
 					w.onReturn = func(parent, child *pathWalker, call *ssa.Call, results []ssa.Value) {
 						// a helper's results denote what the returned values denote
 						set := func(dst, r ssa.Value) {
@@ -206,6 +221,7 @@ func c01Generic(c *Ctx, pkg string, seal bool) {
 							if b, o := baseOff(child, r); b != nil {
 								stor[dst] = c01Stor{b, o}
 							}
+							via[dst] = r
 						}
 						if len(results) == 1 {
 							set(call, results[0])
@@ -250,6 +266,7 @@ func c01Generic(c *Ctx, pkg string, seal bool) {
 						if b, o := baseOff(w, in); b != nil {
 							stor[ph] = c01Stor{b, o}
 						}
+						via[ph] = in
 					}
 					desc := func(w *pathWalker, v ssa.Value) string {
 						l, _ := w.env.eval(v)
@@ -281,6 +298,19 @@ func c01Generic(c *Ctx, pkg string, seal bool) {
 							}
 						case strings.HasSuffix(name, "alias.InexactOverlap"), strings.HasSuffix(name, "alias.AnyOverlap"):
 							w.env.bind(ci.(ssa.Value), 0)
+						case name == "builtin:copy" && len(cc.Args) == 2 && func() bool {
+							al, lo := baseOff(w, cc.Args[1])
+							l, _ := w.env.eval(cc.Args[1])
+							return al != nil && baseAlloc(cc.Args[1]) != nil && content[al] == "TAG" && lo == 0 && l == 16
+						}():
+							// the computed tag copied from local storage to its place
+							if cl, o, ok := norm(cc.Args[0]); ok {
+								if l, _ := w.env.eval(cc.Args[0]); l >= 16 {
+									evs = append(evs, fmt.Sprintf("tag->%s@%d+0", cl, o))
+									break
+								}
+							}
+							evs = append(evs, "tag->"+desc(w, cc.Args[0]))
 						case name == "builtin:copy" && len(cc.Args) == 2:
 							// dst copied to the front of a fresh buffer: that buffer now starts with dst's bytes
 							if cl, o, ok := norm(cc.Args[1]); ok && cl == "BUF" && o == 0 {
@@ -372,6 +402,11 @@ func c01Generic(c *Ctx, pkg string, seal bool) {
 						case strings.HasSuffix(name, "poly1305.MAC).Write"):
 							l, _ := w.env.eval(cc.Args[1])
 							cl := "?"
+							if macDone {
+								// input absorbed after the tag was taken is not part of it
+								addMac("AFTER-TAG", l)
+								break
+							}
 							if k, o, ok := norm(cc.Args[1]); ok {
 								if k == "OUT" && seal && o+l <= ctLen {
 									k = "CT"
@@ -422,10 +457,52 @@ func c01Generic(c *Ctx, pkg string, seal bool) {
 								zeroed += l
 							}
 						case strings.HasSuffix(name, "poly1305.MAC).Sum"):
+							macDone = true
+							// the tag appended to an empty slice at the start of fresh local
+							// storage: that storage now holds the computed tag (to be compared
+							// with the received one, or copied to the output)
+							if al, lo := baseOff(w, cc.Args[1]); al != nil && baseAlloc(cc.Args[1]) != nil && lo == 0 && content[al] == "" {
+								if l, ok := w.env.eval(cc.Args[1]); ok && l == 0 {
+									content[al] = "TAG"
+									if v, isV := ci.(ssa.Value); isV {
+										w.env.bind(v, 16)
+										stor[v] = c01Stor{al, 0}
+									}
+									break
+								}
+							}
 							evs = append(evs, "tag->"+desc(w, cc.Args[1]))
 						case strings.HasSuffix(name, "poly1305.MAC).Verify"):
+							macDone = true
 							evs = append(evs, "verify("+desc(w, cc.Args[1])+")")
 							w.env.bind(ci.(ssa.Value), verdict)
+						case (strings.HasSuffix(name, "subtle.ConstantTimeCompare") || name == "bytes.Equal" || strings.HasSuffix(name, "hmac.Equal")) && len(cc.Args) == 2:
+							// MAC.Verify written out: the computed tag compared with received bytes
+							isTag := func(v ssa.Value) bool {
+								al, lo := baseOff(w, v)
+								l, _ := w.env.eval(v)
+								return al != nil && baseAlloc(v) != nil && content[al] == "TAG" && lo == 0 && l == 16
+							}
+							var other ssa.Value
+							switch {
+							case isTag(cc.Args[0]):
+								other = cc.Args[1]
+							case isTag(cc.Args[1]):
+								other = cc.Args[0]
+							}
+							if other != nil {
+								evs = append(evs, "verify("+desc(w, other)+")")
+								w.env.bind(ci.(ssa.Value), verdict)
+								break
+							}
+							for _, a := range cc.Args {
+								if al, _ := baseOff(w, a); al != nil && baseAlloc(a) != nil && content[al] == "TAG" {
+									// only part of the computed tag takes part in the comparison
+									evs = append(evs, "verify-part-of-tag("+desc(w, cc.Args[0])+","+desc(w, cc.Args[1])+")")
+									w.env.bind(ci.(ssa.Value), verdict)
+									break
+								}
+							}
 						}
 						return ""
 					}
@@ -482,11 +559,11 @@ func c01Generic(c *Ctx, pkg string, seal bool) {
 							bad = fmt.Sprintf("%s: code performs [%s], expected [%s]", id, got, want)
 						}
 						if verdict == 1 {
-							if rl, _ := w.env.eval(retVal(ret, 0)); class[retVal(ret, 0)] != "BUF" || off[retVal(ret, 0)] != 0 || rl != dstLen+n || !isNilConst(retVal(ret, 1)) {
+							if rl, _ := w.env.eval(retVal(ret, 0)); class[retVal(ret, 0)] != "BUF" || off[retVal(ret, 0)] != 0 || rl != dstLen+n || !isNilConst(through(retVal(ret, 1))) {
 								bad = id + ": a verified Open does not return dst followed by the plaintext region with a nil error"
 							}
 						} else {
-							if !isNilConst(retVal(ret, 0)) || !isGlobalLoad(retVal(ret, 1), "errOpen") {
+							if !isNilConst(through(retVal(ret, 0))) || !isGlobalLoad(through(retVal(ret, 1)), "errOpen") {
 								bad = id + ": a failed Open does not return (nil, errOpen)"
 							}
 							if zeroed != n {
